@@ -189,6 +189,26 @@ pub fn run(session: &Session) -> i32 {
     ] {
         cases.push(json!({"kind": "program", "text": text, "reps": reps * 4}));
     }
+    // fillers of exhausted iterators over union types whose members contain unions themselves
+    for (u, sample) in [
+        ("(int|string, int)|(float|string, bool)", "(1, 2)"),
+        ("[int|string]|[float|bool]", "[1]"),
+        ("struct{a: int|string}|struct{a: float|(), b: int}", "struct{a := 1}"),
+        ("(int|float)|(string|bool, int)|[int|()]", "1"),
+        ("mut (int|string)|mut (float|bool)", "mut int|string 1"),
+        ("()->(int|string)|()->(float|bool)", "() -> int|string { return 1; }"),
+        ("((int|string, bool), int)|((float|(), bool), string)", "((1, true), 2)"),
+    ] {
+        for text in [
+            format!("f := (a: [{u}]) -> any {{ it := a~; it(); return it(); }}; f([])"),
+            format!("f := (a: [{u}]) -> any {{ it := a~; it(); return it(); }}; f([{sample}])"),
+            format!("it := [1]~ @ ((x: int) -> {u} {{ return {sample}; }}); it(); it()"),
+            format!("it := [1, \"a\"]~ ? {u}; it()"),
+            format!("f := (a: [{u}]) -> any {{ return a~ ? {u} $]; }}; f([{sample}])"),
+        ] {
+            cases.push(json!({"kind": "program", "text": text, "reps": reps * 4}));
+        }
+    }
     for text in crate::props::c03::corpus() {
         cases.push(json!({"kind": "program", "text": text, "reps": reps}));
     }
